@@ -25,24 +25,26 @@ func envInt(name string, def int) int {
 }
 
 type Config struct {
-	Mode       string    `json:"mode"`
-	Out        string    `json:"out"`
-	In         string    `json:"in,omitempty"`
-	Data       string    `json:"data"`
-	Seed       int64     `json:"seed"`
-	Programs   int       `json:"programs"`
-	Gen        GenCfg    `json:"gen"`
-	Faults     bool      `json:"faults"`
-	MaxFault   int       `json:"max_fault"` // max fault positions per shape (0 = all)
-	Audit      bool      `json:"audit"`     // orphan audit from a fresh process at the end of every history
-	Child      int       `json:"child"`     // sweep: every n-th position also probes from a child process (0 = never)
-	Probe      *ProbeCfg `json:"probe,omitempty"`
-	Program    *Program  `json:"program,omitempty"` // replay: the program to run sequentially
-	Conc       *ConcCfg  `json:"conc,omitempty"`
-	Crash      *CrashCfg `json:"crash,omitempty"`
-	Cache      *CacheCfg `json:"cache,omitempty"`
-	Clustered  bool      `json:"clustered"`             // cache mode: several processes sharing a RESP (Redis protocol) L2 cache
-	BackendOut string    `json:"backend_out,omitempty"` // also record the backend-call trace (SopCommitTrace)
+	Mode        string    `json:"mode"`
+	Out         string    `json:"out"`
+	In          string    `json:"in,omitempty"`
+	Data        string    `json:"data"`
+	Seed        int64     `json:"seed"`
+	Programs    int       `json:"programs"`
+	Gen         GenCfg    `json:"gen"`
+	Faults      bool      `json:"faults"`
+	MaxFault    int       `json:"max_fault"`    // max fault positions per shape (0 = all)
+	DirectedMax int       `json:"directed_max"` // fault mode: max fault positions per directed shape (0 = all)
+	Audit       bool      `json:"audit"`        // orphan audit from a fresh process at the end of every history
+	Child       int       `json:"child"`        // sweep: every n-th position also probes from a child process (0 = never)
+	Probe       *ProbeCfg `json:"probe,omitempty"`
+	Program     *Program  `json:"program,omitempty"` // replay: the program to run sequentially
+	Conc        *ConcCfg  `json:"conc,omitempty"`
+	Crash       *CrashCfg `json:"crash,omitempty"`
+	Cache       *CacheCfg `json:"cache,omitempty"`
+	Script      []string  `json:"script,omitempty"`      // cache mode: scripted steps (txn@wJ, observe@wJ, flushall, clearl2) instead of random ones
+	Clustered   bool      `json:"clustered"`             // cache mode: several processes sharing a RESP (Redis protocol) L2 cache
+	BackendOut  string    `json:"backend_out,omitempty"` // also record the backend-call trace (SopCommitTrace)
 }
 
 func main() {
